@@ -21,6 +21,11 @@ PROT_ONLY = set("DEFHIKLMPQRSVWY")
 NUC_SET = set("ACGTUN")
 NAME_CHARS = "ABCDEFGHIJKLMNOPQRSTUVWXYZabcdefghijklmnopqrstuvwxyz0123456789_.|-"
 
+# words that mean something to a format sniffer or header parser; as residue text (letters only: all of them are legal
+# protein residues) and inside names they are ordinary data
+FORMAT_WORDS = ["CLUSTAL", "CLUSTALW", "MSF", "PILEUP", "PileUp", "MULTIPLE", "ALIGNMENT", "MUSCLE", "KALIGN", "Kalign", "NAME",
+                "Name", "LEN", "Len", "CHECK", "Check", "WEIGHT", "Weight", "TYPE", "Type", "FASTA", "STOCKHOLM", "NEXUS", "PHYLIP"]
+
 DNA_TYPES = [5, 0, 1, 2]      # undefined, dna, internal, rna
 PROT_TYPES = [5, 3, 4]        # undefined, protein, divergent
 TYPE_NAME = {0: "dna", 1: "internal", 2: "rna", 3: "protein", 4: "divergent", 5: None}
@@ -178,10 +183,10 @@ def degenerate(draw, alphabet, max_len=400):
 
 
 @st.composite
-def seqsets(draw, kind=None, min_n=2, max_n=60, max_len=400, dup=True, case=True, allow_big=True):
+def seqsets(draw, kind=None, min_n=2, max_n=60, max_len=400, dup=True, case=True, allow_big=True, words=True):
     """-> dict(kind, seqs). seqs non-empty strings; kind is what C13 guarantees or None."""
     k, alpha = draw(alphabets(kind))
-    choices = ["small", "small", "big", "unrel", "degen"] if allow_big else ["small", "degen"]
+    choices = ["small", "small", "big", "big", "unrel", "unrel", "degen", "degen", "dupheavy"] if allow_big else ["small", "degen"]
     shape = draw(st.sampled_from(choices))
     if shape == "small":
         seqs = draw(small_family(alpha, min_n=min_n, max_n=min(max_n, 10), max_len=min(max_len, 40)))
@@ -189,8 +194,28 @@ def seqsets(draw, kind=None, min_n=2, max_n=60, max_len=400, dup=True, case=True
         seqs = draw(big_family(alpha, min_n=min_n, max_n=max_n, max_len=max_len))
     elif shape == "unrel":
         seqs = draw(unrelated(alpha, min_n=min_n, max_n=min(max_n, 30), max_len=min(max_len, 200)))
+    elif shape == "dupheavy":
+        # mostly copies of one sequence plus a few variants that force gap columns
+        L = draw(st.integers(1, min(max_len, 80)))
+        base = expand_random(draw(st.integers(0, 2 ** 32 - 1)), alpha, 1, L, L)[0]
+        ncopy = draw(st.integers(max(1, min_n - 1), max(1, max_n - 1)))
+        nvar = draw(st.integers(0 if ncopy >= min_n else 1, min(4, max(1, max_n - ncopy))))
+        rnd = random.Random(draw(st.integers(0, 2 ** 32 - 1)))
+        var = [mutate(rnd, base, alpha, 0.05, 0.08, 0.04) or base for _ in range(nvar)]
+        seqs = [base] * ncopy
+        for v in var:
+            seqs.insert(draw(st.integers(0, len(seqs))), v)
+        seqs = seqs[:max_n]
     else:
         seqs = draw(degenerate(alpha, max_len=max_len))
+    if words and k == "protein" and draw(st.integers(0, 7)) == 0:
+        # residue text that spells a format keyword (upper case as written in files, or as drawn)
+        for _ in range(draw(st.integers(1, 2))):
+            i = draw(st.integers(0, len(seqs) - 1))
+            w = draw(st.sampled_from(FORMAT_WORDS)).upper()
+            pos = draw(st.integers(0, len(seqs[i])))
+            seqs[i] = seqs[i][:pos] + w + seqs[i][pos:]
+        shape += "+word"
     if dup and len(seqs) < max_n and draw(st.integers(0, 3)) == 0:
         i = draw(st.integers(0, len(seqs) - 1))
         j = draw(st.integers(0, len(seqs)))
@@ -209,7 +234,16 @@ def seqsets(draw, kind=None, min_n=2, max_n=60, max_len=400, dup=True, case=True
 @st.composite
 def names_for(draw, n, max_len=40, charset=NAME_CHARS, long_names=True):
     """n pairwise distinct names (distinct within the first 255 characters)."""
-    mode = draw(st.sampled_from(["seq", "seq", "rand", "long"] if long_names else ["seq", "rand"]))
+    mode = draw(st.sampled_from(["seq", "seq", "seq", "rand", "rand", "long", "long", "word"] if long_names else ["seq", "seq", "seq", "rand", "rand", "rand", "word"]))
+    if mode == "word":
+        # names that contain a word a format sniffer looks for, in the spelling files use
+        sep = draw(st.sampled_from(["_", ".", "|", "-", ""]))
+        k = draw(st.integers(0, n - 1))
+        out = []
+        for i in range(n):
+            w = draw(st.sampled_from(FORMAT_WORDS)) if (i == k or draw(st.integers(0, 3)) == 0) else "s"
+            out.append("%s%s%d" % (w, sep, i + 1) if draw(st.booleans()) else "%d%s%s" % (i + 1, sep if sep != "-" else "_", w))
+        return out
     if mode == "seq":
         pre = draw(st.text(alphabet=charset, min_size=0, max_size=6))
         order = draw(st.booleans())
@@ -256,3 +290,8 @@ def types_for(kind):
 
 
 threads = st.sampled_from([1, 1, 2, 3, 4, 8, 16])
+
+
+# how one and the same set of records is laid out in a FASTA file (no property depends on it: C04)
+layouts = st.fixed_dictionaries({"width": st.sampled_from([0, 0, 60, 80, 7, 1]), "eol": st.sampled_from(["\n", "\n", "\n", "\r\n"]),
+                                 "final_eol": st.sampled_from([True, True, False]), "lead_blank": st.sampled_from([0, 0, 0, 1, 6])})
